@@ -462,7 +462,7 @@ func c13r3(r *R) {
 		// installed in the matching slot
 		installed := false
 		eachInstr(ms, func(ins ssa.Instruction) {
-			if st, ok := ins.(*ssa.Store); ok && describe(st.Val) == "closure:"+fname(lit) {
+			if st, ok := ins.(*ssa.Store); ok && isClosureOf(describe(st.Val), lit) {
 				want := map[string]string{"Req": ".ReadRequest", "Res": ".WroteResponse"}[field]
 				installed = strings.HasSuffix(describe(st.Addr), want)
 			}
@@ -648,7 +648,7 @@ func c13r5(r *R) {
 			} else {
 				cl := p.Events[bi].Desc[len("(conntrack.Builder).Build("):strings.Index(p.Events[bi].Desc, ", ")]
 				oc := p.Mem[cl+".OnClose"]
-				if len(lit) != 1 || oc != "closure:"+fname(lit[0]) {
+				if len(lit) != 1 || !isClosureOf(oc, lit[0]) {
 					why = append(why, "OnClose is "+oc)
 				} else {
 					b := closureBindings(lit[0])
